@@ -419,6 +419,24 @@ def _init_shutdown(run, P):
         raise AnalysisError(f"fortran.py: only {n_assoc} generated association tests found")
 
 
+def _depth_zero(conds):
+    return any(("loop_nesting_depth" in t) and (
+        (t.strip() in ("self.loop_nesting_depth", "self.loop_nesting_depth > 0",
+                       "self.loop_nesting_depth != 0", "self.loop_nesting_depth >= 1") and not v)
+        or (t.strip() in ("self.loop_nesting_depth == 0", "self.loop_nesting_depth < 1") and v))
+        for t, v in conds)
+
+
+def _releases_guarded(f):
+    """Every emit_variable_deinit call of f stands behind 'the loop depth is zero'."""
+    from .util import path_conditions
+    from .c09 import _stmt_of
+    calls = [x for x in ast.walk(f.node) if isinstance(x, ast.Call)
+             and dotted(x.func) == "self.emit_variable_deinit"]
+    bad = [x for x in calls if not _depth_zero(path_conditions(f.node, _stmt_of(f.node, x) or x))]
+    return calls, bad
+
+
 def _table_users(run, P):
     """The last-use table is about the linear order of the text: inside a `do` loop
     the statement that is last in the text is not the last to run.  Whoever
@@ -449,6 +467,15 @@ def _table_users(run, P):
                 for t, v in conds)
             if not guarded:
                 bad = x
+        if bad is not None:
+            # the table is read everywhere, but what is *emitted* on its word is emitted at
+            # depth zero only (a release put off until the loops are closed)
+            calls_, unguarded_ = _releases_guarded(f)
+            other_emits = [x for x in ast.walk(f.node) if isinstance(x, ast.Call)
+                           and (dotted(x.func) or "").startswith("self.emit")
+                           and dotted(x.func) != "self.emit_variable_deinit"]
+            if calls_ and not unguarded_ and not other_emits:
+                bad = None
         run.ob("C12.lastuse", f, bad if bad is not None else f.node, bad is None,
                construct=f"{name} consults self.last_used_stmt_table only where the loop depth is "
                          f"known to be zero",
@@ -497,8 +524,34 @@ def _lastuse(run, P):
         isinstance(x, ast.Call) and dotted(x.func) == "self.emit_variable_deinit"
         for x in walk_fragment(n.ast))]
     guards = [n for n in g.nodes if n.kind == "test" and "loop_nesting_depth" in ast.unparse(n.ast)]
+    calls_, unguarded_ = _releases_guarded(d)
+    # every other reader of the depth that releases (a flush when the loops are closed)
+    G_ = P.cls(GEN)
+    for name_, m_ in sorted(G_.methods.items()):
+        if m_ is d or name_ == "emit_variable_deinit":
+            continue
+        queues = {x.func.value.attr for x in ast.walk(d.node) if isinstance(x, ast.Call)
+                  and isinstance(x.func, ast.Attribute) and x.func.attr in ("append", "extend", "add")
+                  and isinstance(x.func.value, ast.Attribute) and dotted(x.func.value.value) == "self"}
+        drains = any(isinstance(x, ast.Attribute) and x.attr in queues and isinstance(x.ctx, ast.Load)
+                     for x in ast.walk(m_.node))
+        if drains or any(isinstance(x, ast.Attribute) and x.attr == "loop_nesting_depth"
+                         and isinstance(x.ctx, ast.Load) for x in ast.walk(m_.node)):
+            c2, u2 = _releases_guarded(m_)
+            if c2:
+                src_ = ast.unparse(m_.node)
+                dec_first = "self.loop_nesting_depth -= 1" not in src_ or (
+                    src_.index("self.loop_nesting_depth -= 1") < src_.index("self.emit_variable_deinit"))
+                run.ob("C12.lastuse", m_, (u2 or c2)[0], not u2 and dec_first,
+                       construct=f"{name_}: releases only where the loop depth (after its own "
+                                 f"decrement) is zero",
+                       why="a release that is put off to the end of a loop must wait for the end "
+                           "of the outermost one: after an inner 'end do' the outer loop runs "
+                           "the statement again")
     ok = False
-    if guards and rel:
+    if guards and rel and calls_ and not unguarded_:
+        ok = True
+    elif guards and rel:
         gd = guards[0]
         # on the branch where depth is non-zero no release is reachable
         lab = "T" if isinstance(gd.ast, ast.Attribute) or "!= 0" in ast.unparse(gd.ast) \
@@ -774,9 +827,10 @@ def _release_sites(run, P):
                      if isinstance(x, ast.Attribute) and x.attr == "loop_nesting_depth"
                      and isinstance(x.ctx, ast.Load)
                      and not any(isinstance(a_, ast.AugAssign) and a_.target is x for a_ in ast.walk(m.node)))
-    ok = set(readers) <= {"emit_deinit_for_last_usage_of_vars"} and bool(readers)
+    ok = bool(readers) and not ({"emit_variable_deinit", "emit_user_type_move"} & set(readers))
     run.ob("C12.lastuse", G, None, ok,
-           construct=f"the loop depth is consulted by {sorted(set(readers))} only",
+           construct=f"the loop depth is consulted by {sorted(set(readers))}, not by the release "
+                     f"helper itself",
            why="emit_variable_deinit also emits 'drop the old value' for a move: suppressed "
                "inside loops, a move in a loop body never releases its old target and "
                "storage leaks once per iteration")
